@@ -31,7 +31,7 @@ RULE = ("K-gen: random statement skeletons (size <= 14) over {text, break, conti
         "(ii) grammar-generated template sets and token-level mutations of them, (iii) hypothesis probes; "
         "distinct = (configuration, source); non-trivial = source contains a delimiter start sequence.")
 
-NAMES = {1: "caller", 2: "kwargs", 3: "varargs", 8: "fi", 9: "\ufb01"}
+NAMES = {1: "caller", 2: "kwargs", 3: "varargs", 4: "_loop_vars", 5: "_block_vars", 8: "fi", 9: "\ufb01"}
 
 
 def nm(n):
@@ -63,8 +63,8 @@ def gen_skel(r, depth, budget):
         if k2 < 0.18:
             tt, ts = gen_target(r, 3)
             if r.random() < 0.5:
-                return ["G"] + tt, "{% set " + ts + " = x %}"
-            return ["G"] + tt, "{% for " + ts + " in x %}{% endfor %}"
+                return ["G", "0"] + tt, "{% set " + ts + " = x %}"
+            return ["G", "1"] + tt, "{% for " + ts + " in x %}{% endfor %}"
         if k2 < 0.3:
             return ["T"], "t"
         if k2 < 0.5:
@@ -74,7 +74,7 @@ def gen_skel(r, depth, budget):
         if k2 < 0.85:
             n = r.choice([1, 2, 3])
             return ["U", str(n)], "{{ " + nm(n) + " }}"
-        ks = [r.choice([10, 11, 12, 8, 9]) for _ in range(r.randint(0, 3))]
+        ks = [r.choice([10, 11, 12, 8, 9, 1, 4, 5, 4, 5]) for _ in range(r.randint(0, 3))]
         return ["K", str(len(ks))] + [str(x) for x in ks], "{{ f(" + ", ".join(f"{nm(x)}=1" for x in ks) + ") }}"
     budget[0] -= 1
 
@@ -106,7 +106,9 @@ def gen_skel(r, depth, budget):
                "filter": "{% filter upper %}" + sb + "{% endfilter %}",
                "set": "{% set q %}" + sb + "{% endset %}",
                "autoescape": "{% autoescape true %}" + sb + "{% endautoescape %}"}[form]
-        return ["W"] + tb, src
+        if form == "autoescape":       # Scope([ScopedEvalContextModifier(body)])
+            return ["W", "0", "1", "Z"] + tb, src
+        return ["W", "1" if form == "with" else "0"] + tb, src
     if k < 0.84:
         ps = [r.choice([10, 11, 12, 2, 3, 8, 9]) for _ in range(r.randint(0, 3))]
         tb, sb = body()
@@ -115,7 +117,7 @@ def gen_skel(r, depth, budget):
                 "{% macro m" + str(budget[1]) + "(" + ", ".join(nm(x) for x in ps) + ") %}" + sb + "{% endmacro %}")
     if k < 0.94:
         ps = [r.choice([10, 11, 12, 8, 9]) for _ in range(r.randint(0, 2))]
-        ks = [r.choice([10, 11, 12]) for _ in range(r.randint(0, 2))]
+        ks = [r.choice([10, 11, 12, 10, 11, 12, 1, 4, 5]) for _ in range(r.randint(0, 2))]
         tb, sb = body()
         return (["A", str(len(ps))] + [str(x) for x in ps] + [str(len(ks))] + [str(x) for x in ks] + tb,
                 "{% call(" + ", ".join(nm(x) for x in ps) + ") f(" + ", ".join(f"{nm(x)}=1" for x in ks) + ") %}" + sb + "{% endcall %}")
@@ -198,8 +200,8 @@ def real_facts(jinja2, src):
             if isinstance(n, ast.Call) and isinstance(n.func, ast.Attribute) and n.func.attr == "call" \
                     and isinstance(n.func.value, ast.Name) and n.func.value.id in ("context", "environment"):
                 ks = [inv.get(k.arg, int(k.arg[1:]) if k.arg and re.match(r"p\d+$", k.arg) else None)
-                      for k in n.keywords if k.arg != "caller"]
-                ks = [k for k in ks if k is not None]     # engine keywords (_loop_vars, _block_vars, …)
+                      for k in n.keywords]                # the engine's own keywords (4, 5, caller) included
+                ks = [k for k in ks if k is not None]     # **kwargs unpacking (the keyword workaround)
                 if ks:
                     facts.append("k:" + ",".join(str(k) for k in ks))
 
@@ -282,7 +284,11 @@ CONFIGS = {
     "sandbox": {"_class": "sandbox"},
     "ext_async_trim": dict(extensions=["jinja2.ext.i18n", "jinja2.ext.loopcontrols"], enable_async=True, trim_blocks=True,
                            line_statement_prefix="%"),
+    # templates loaded under a name (as every loader does): the name is embedded in the generated module
+    "named": {"_named": True},
 }
+# names a loader may hand to the compiler: quotes, backslashes, braces, line breaks, non-ASCII
+NAME_POOL = ['a"b', "c'd", "e\\f", "g\nh", "{{x}}", "{x!r}", "\u00fcn\u00ef", 'a"""b', "x\\", "%s %d", "'\"", "a\rb", "\u2028", "t.html"]
 FRAGS = {
     "default": ["{{", "}}", "{%", "%}", "{#", "#}", "-", "\n", "a", " ", "\"", "(", "if ", "1"],
     "erb": ["<%", "%>", "<%=", "<!--", "-->", "-", "\n", "a", " ", "'", "[", "for ", "."],
@@ -293,6 +299,7 @@ FRAGS = {
     "ext": ["{%", "%}", "{{", "}}", "trans", "endtrans", "pluralize", "do ", "break", "a", " ", "%", "debug"],
     "sandbox": ["{{", "}}", "a", ".", "__class__", "(", ")", "[", "]", "\"", "|", "attr"],
     "ext_async_trim": ["{%", "%}", "trans", "endtrans", "pluralize", "a", " "],
+    "named": ["{{", "}}", "{%", "%}", " 1 if a ", "from 'x' import a", "include ", "extends ", "a", " ", "(", "'x'"],
 }
 
 _ENVS = {}
@@ -304,6 +311,7 @@ def get_env(cfgname):
     if cfgname not in _ENVS:
         kw = dict(CONFIGS[cfgname])
         cls = jinja2.sandbox.SandboxedEnvironment if kw.pop("_class", None) else jinja2.Environment
+        kw.pop("_named", None)
         _ENVS[cfgname] = cls(**kw)
     return _ENVS[cfgname]
 
@@ -329,7 +337,13 @@ def load_outcome(cfgname, src):
     signal.setitimer(signal.ITIMER_REAL, 120.0)
     try:
         try:
-            tmpl = env.from_string(src)
+            if cfgname == "named":
+                import zlib
+                tname = NAME_POOL[zlib.crc32(src.encode("utf-8", "surrogatepass")) % len(NAME_POOL)]
+                code = env.compile(src, tname, tname)
+                tmpl = jinja2.Template.from_code(env, code, env.make_globals(None), None)
+            else:
+                tmpl = env.from_string(src)
             # "yields a renderable template": rendering on an empty context may raise what the data /
             # operators raise, but never an error that only broken generated code produces
             try:
@@ -535,9 +549,29 @@ def oracle(ctx):
                     work.append((cfgname, a + b + c))
                     n_pre += 1
     ctx.count("oracle_error_after_whitespace_control", n_pre)
+    # (viii) calls and call blocks whose keywords are names the code generator passes itself, in every
+    # frame kind (top level, loop body, loop else, block, macro, with, filter block, call block body)
+    RES = ["caller", "_loop_vars", "_block_vars", "kwargs", "varargs", "loop", "self", "context", "environment",
+           "missing", "resolve", "undefined", "concat", "class", "__debug__", "None", "a"]
+    WRAP = ["%s", "{%% for i in y %%}%s{%% endfor %%}", "{%% for i in y %%}{%% else %%}%s{%% endfor %%}",
+            "{%% block b %%}%s{%% endblock %%}", "{%% macro m() %%}%s{%% endmacro %%}", "{%% with q=1 %%}%s{%% endwith %%}",
+            "{%% for i in y %%}{%% if i %%}%s{%% endif %%}{%% endfor %%}", "{%% block b %%}{%% for i in y recursive %%}%s{%% endfor %%}{%% endblock %%}",
+            "{%% call f() %%}%s{%% endcall %%}", "{%% for i in y %%}{%% filter upper %%}%s{%% endfilter %%}{%% endfor %%}",
+            "{%% for i in y %%}{%% autoescape true %%}%s{%% endautoescape %%}{%% endfor %%}"]
+    n_res = 0
+    for w in WRAP:
+        for k1 in RES:
+            for k2 in RES[:4] + [None]:
+                kws = f"{k1}=1" + (f", {k2}=2" if k2 else "")
+                for inner in ("{{ f(%s) }}" % kws, "{%% call f(%s) %%}{%% endcall %%}" % kws, "{{ x|f(%s) }}" % kws,
+                              "{%% call(%s) f() %%}{%% endcall %%}" % kws, "{%% if x is f(%s) %%}{%% endif %%}" % kws):
+                    for cfgname in ("default", "async", "sandbox"):
+                        work.append((cfgname, w % inner))
+                        n_res += 1
+    ctx.count("oracle_engine_keyword_names", n_res)
     work += PROBES
     ctx.count("oracle_exhaustive", n_exh)
-    ctx.count("oracle_generated_and_mutated", len(work) - n_exh - len(PROBES) - n_uni)  # (v) counted separately below
+    ctx.count("oracle_generated_and_mutated", len(work) - n_exh - len(PROBES) - n_uni - n_res)  # (v) counted separately below
     ctx.count("oracle_probes", len(PROBES))
     chunks = [work[i:i + 400] for i in range(0, len(work), 400)]
     t0 = time.time()
